@@ -25,6 +25,7 @@ type MScope struct {
 }
 
 type MObj struct {
+	Origin   *MObj  // for methods of instantiated generic interfaces: the generic method
 	Kind     string // Var | Func | TypeName
 	Name     *smt.Term
 	Pkg      *MPkg
@@ -454,6 +455,14 @@ func (tm *TM) Stubs() map[string]exec.Stub {
 		return o
 	}
 	st["go/types.NewVar"] = st["go/types.NewParam"]
+	st["(*go/types.Func).Origin"] = func(ex *exec.Exec, c *exec.CallInfo) exec.Value {
+		o := recvO(ex, c)
+		if o.Origin != nil {
+			return o.Origin
+		}
+		return o
+	}
+	st["(*go/types.TypeName).Type"] = st["(*go/types.object).Type"]
 	st["go/types.IsInterface"] = func(ex *exec.Exec, c *exec.CallInfo) exec.Value {
 		iv := c.Args[0].(exec.Iface)
 		if iv.T == nil {
@@ -629,6 +638,9 @@ func (cv *Conv) Obj(o types.Object) *MObj {
 		m.Embedded = x.Embedded()
 	case *types.Func:
 		m.Kind = "Func"
+		if x.Origin() != x {
+			m.Origin = cv.Obj(x.Origin())
+		}
 	case *types.TypeName:
 		m.Kind = "TypeName"
 	default:
@@ -767,6 +779,21 @@ func (cv *Conv) Scope(p *types.Package) *MScope {
 		switch o.(type) {
 		case *types.TypeName, *types.Var, *types.Func:
 			mo := cv.Obj(o)
+			sc.Names = append(sc.Names, mo.Name)
+			sc.Objs = append(sc.Objs, mo)
+		}
+	}
+	return sc
+}
+
+// UniverseScope: the model of go/types.Universe (type names only), built from the real one.
+func UniverseScope(ex *exec.Exec) *MScope {
+	cv := NewConv(ex)
+	sc := &MScope{}
+	for _, n := range types.Universe.Names() {
+		o := types.Universe.Lookup(n)
+		if tn, ok := o.(*types.TypeName); ok {
+			mo := cv.Obj(tn)
 			sc.Names = append(sc.Names, mo.Name)
 			sc.Objs = append(sc.Objs, mo)
 		}
